@@ -1,7 +1,8 @@
 (* C07 -- slicing an observable behaves like slicing a list.
    [slice_plan] is REGENERATED from /repo/reactivex/operators/_slice.py on every
    run (Gen/SliceGen.v); these theorems are re-checked against it. *)
-From RxVerif Require Import Base.Prelude Ops.Slice Ops.SliceFacts Gen.SliceGen Ops.SliceProof.
+From RxVerif Require Import Base.Prelude Ops.Machine Ops.MachineFacts Ops.Elementwise
+  Ops.Slice Ops.SliceFacts Gen.SliceGen Ops.SliceProof Ops.SliceStream.
 
 (* For every list (shorter than sys.maxsize), all start/stop in Z or None and
    every step >= 1 or None: slice_ builds a pipeline (no exception), every
@@ -55,3 +56,61 @@ Example C07_witness_getitem :
   exists plan, slice_plan (Some (-3)) (Some (-2)) (Some 1) = Some plan
             /\ run_plan plan [0;1;2;3;4;5;6;7;8;9] = [7].
 Proof. eexists; split; vm_compute; reflexivity. Qed.
+
+(* ---- stream level (Ops/SliceStream.v) ---------------------------------------------------------------------
+   [slice_mealy plan] is the regenerated plan read as the pipeline of Mealy machines the code builds: each
+   plan step is the machine of that operator in Ops/Elementwise.v (op_take, op_skip, op_take_last,
+   op_skip_last, op_filter_indexed, op_map_indexed, op_filter, op_map), composed left to right.
+   Completing source: exactly the list slice, AND THEN COMPLETION. *)
+Theorem C07_slice_stream :
+  forall (A : Type) (l : list A) (start stop step : option Z),
+    zlen l <= maxsize -> step_ok step ->
+    exists plan, slice_plan start stop step = Some plan
+      /\ untag (exec (slice_mealy plan) (events l TDone)) = events (py_slice l start stop step) TDone.
+Proof. exact @slice_stream_done. Qed.
+Print Assumptions C07_slice_stream.
+
+(* Failing source: the error passes through -- after the elements of the slice, or after NOTHING when the plan
+   has a take_last stage (negative start: the elements are held back until a completion that never comes) --
+   unless the leading take(stop) had already completed the pipeline, and then the output is the one of the
+   completing source. *)
+Theorem C07_slice_stream_error :
+  forall (A : Type) (l : list A) (start stop step : option Z) e,
+    zlen l <= maxsize -> step_ok step ->
+    exists plan, slice_plan start stop step = Some plan
+      /\ let out := untag (exec (slice_mealy plan) (events l (TErr e))) in
+         out = events (py_slice l start stop step) (TErr e)
+         \/ (out = [Err e] /\ exists n, In (PTakeLast n) plan)
+         \/ (out = events (py_slice l start stop step) TDone
+             /\ exists n r, plan = PTake n :: r /\ n <= zlen l).
+Proof. exact @slice_stream_error. Qed.
+Print Assumptions C07_slice_stream_error.
+
+(* every plan step as a machine, on a stream with ANY termination, is its list function (take: completes at its
+   n-th element; take_last: loses everything on a failing source) -- the link between run_pop and the machines *)
+Theorem C07_plan_step_is_its_machine : forall (A : Type) (p : pop) (l : list (Z * A)) t,
+  pop_sok p = true ->
+  untag (exec (pop_mealy p) (events l t)) = events (fst (run_pop_ev p (l, t))) (snd (run_pop_ev p (l, t))).
+Proof. exact @pop_stream. Qed.
+Print Assumptions C07_plan_step_is_its_machine.
+Theorem C07_plan_is_its_pipeline : forall (A : Type) (plan : list pop) (l : list (Z * A)) t,
+  forallb pop_sok plan = true ->
+  untag (exec (plan_mealy plan) (events l t))
+  = events (fst (run_plan_ev plan (l, t))) (snd (run_plan_ev plan (l, t))).
+Proof. exact @plan_stream. Qed.
+Print Assumptions C07_plan_is_its_pipeline.
+Theorem C07_plan_on_completing_source : forall (A : Type) (plan : list pop) (l : list (Z * A)),
+  run_plan_ev plan (l, TDone) = (run_tagged plan l, TDone).
+Proof. exact @run_plan_ev_done. Qed.
+Print Assumptions C07_plan_on_completing_source.
+
+(* non-vacuity: the three outcomes on a failing source -- range(5)[1:9] + error, [-2:] + error, [1:3] + error *)
+Example C07_witness_stream_error :
+  (exists plan, slice_plan (Some 1) (Some 9) None = Some plan
+     /\ untag (exec (slice_mealy plan) (events [0;1;2;3;4] (TErr 7))) = [Next 1; Next 2; Next 3; Next 4; Err 7])
+  /\ (exists plan, slice_plan (Some (-2)) None None = Some plan
+     /\ untag (exec (slice_mealy plan) (events [0;1;2;3;4] (TErr 7))) = [Err 7]
+     /\ untag (exec (slice_mealy plan) (events [0;1;2;3;4] TDone)) = [Next 3; Next 4; Done])
+  /\ (exists plan, slice_plan (Some 1) (Some 3) None = Some plan
+     /\ untag (exec (slice_mealy plan) (events [0;1;2;3;4] (TErr 7))) = [Next 1; Next 2; Done]).
+Proof. repeat split; eexists; repeat split; vm_compute; reflexivity. Qed.
